@@ -159,6 +159,10 @@ type escOutcome struct {
 
 // followToFrame follows a value forward inside fn until it is consumed by an escaper or by a raw sink.
 func followToFrame(p *Prog, fn *ssa.Function, src ssa.Value, req *byteSet) []escOutcome {
+	return followToFrameD(p, fn, src, req, 0)
+}
+
+func followToFrameD(p *Prog, fn *ssa.Function, src ssa.Value, req *byteSet, depth int) []escOutcome {
 	var out []escOutcome
 	seen := map[ssa.Value]bool{}
 	work := []ssa.Value{src}
@@ -286,9 +290,14 @@ func followToFrame(p *Prog, fn *ssa.Function, src ssa.Value, req *byteSet) []esc
 				case strings.HasPrefix(full, "strconv.Quote") || strings.HasPrefix(full, "strconv.AppendQuote"):
 					out = append(out, escOutcome{via: full, pos: x.Pos(), ok: false, what: full + " renders non-printable and non-UTF-8 bytes as \\x.. / \\a / \\v escapes, which the gjson reader does not decode (the string is cut there)"})
 				default:
-					if f := StaticFn(x); f != nil && f.Pkg != nil && strings.HasPrefix(f.Pkg.Pkg.Path(), Root) && returnsBytes(f) {
+					f := StaticFn(x)
+					switch {
+					case f != nil && f.Pkg != nil && strings.HasPrefix(f.Pkg.Pkg.Path(), Root) && returnsBytes(f):
 						checkEscaper(f, x.Pos())
-					} else {
+					case f != nil && f.Pkg == fn.Pkg && len(f.Blocks) > 0 && depth < 2 && argIdx < len(f.Params):
+						// a same-package helper that frames the value: follow its parameter
+						out = append(out, followToFrameD(p, f, f.Params[argIdx], req, depth+1)...)
+					default:
 						raw(x.Pos(), "handed to "+full)
 					}
 				}
@@ -334,14 +343,29 @@ func runJSONEscaping(c *Ctx) {
 	for _, fam := range fams {
 		fn := p.Fn(fam[0], fam[1], "Pack")
 		for _, field := range []string{"MarshalBody", "ServiceMethod"} {
-			var srcs []ssa.Value
-			for _, call := range AllCalls(fn) {
-				if o := CalleeObj(call); o != nil && o.Name() == field && o.Pkg() != nil && strings.HasSuffix(o.Pkg().Path(), "/socket") {
-					if v, ok := call.(ssa.Value); ok {
-						srcs = append(srcs, v)
+			type srcAt struct {
+				v  ssa.Value
+				in *ssa.Function
+			}
+			var srcs []srcAt
+			// the field is read in Pack or in a same-package helper Pack calls (depth <= 2)
+			seenFn := map[*ssa.Function]bool{}
+			var scan func(f *ssa.Function, d int)
+			scan = func(f *ssa.Function, d int) {
+				if f == nil || seenFn[f] || len(f.Blocks) == 0 || f.Pkg != fn.Pkg || d > 2 {
+					return
+				}
+				seenFn[f] = true
+				for _, call := range AllCalls(f) {
+					if o := CalleeObj(call); o != nil && o.Name() == field && o.Pkg() != nil && strings.HasSuffix(o.Pkg().Path(), "/socket") {
+						if v, ok := call.(ssa.Value); ok {
+							srcs = append(srcs, srcAt{v, f})
+						}
 					}
+					scan(call.Common().StaticCallee(), d+1)
 				}
 			}
+			scan(fn, 0)
 			key := fam[1] + ".Pack " + field
 			if len(srcs) == 0 {
 				c.Undec(key, p.Pos(fn.Pos()), "no call to Message."+field+" found in Pack: idiom not recognised")
@@ -349,7 +373,7 @@ func runJSONEscaping(c *Ctx) {
 			}
 			var outs []escOutcome
 			for _, s := range srcs {
-				outs = append(outs, followToFrame(p, fn, s, &req)...)
+				outs = append(outs, followToFrame(p, s.in, s.v, &req)...)
 			}
 			c.fact("value-forward")
 			c.fact("escape-table")
@@ -608,6 +632,22 @@ func runFreshBufferEmpty(c *Ctx) {
 			v := Resolve(rv)
 			n++
 			key := fmt.Sprintf("BufferPool.Get result #%d", n)
+			if call, isCall := v.(*ssa.Call); isCall {
+				// the buffer is made by a same-package helper: its single returned value is examined instead
+				if h := call.Call.StaticCallee(); h != nil && h.Pkg == fn.Pkg && len(h.Blocks) > 0 {
+					var hv []ssa.Value
+					Instrs(h, func(j ssa.Instruction) {
+						if hr, isRet := j.(*ssa.Return); isRet {
+							for _, x := range ReturnVals(hr) {
+								hv = append(hv, Resolve(x))
+							}
+						}
+					})
+					if len(hv) == 1 {
+						v = hv[0]
+					}
+				}
+			}
 			switch x := v.(type) {
 			case *ssa.TypeAssert:
 				c.HoldTrivial(key, p.InstrPos(ret), "the pool's (reset) object")
@@ -752,6 +792,24 @@ func forwardClosure(srcs ...ssa.Value) map[ssa.Value]bool {
 	return seen
 }
 
+// helperWritesParam: h is a same-package helper that hands its k-th parameter (or a slice of it) to a Write.
+func helperWritesParam(h, caller *ssa.Function, k int) bool {
+	if h == nil || h.Pkg != caller.Pkg || len(h.Blocks) == 0 || k >= len(h.Params) {
+		return false
+	}
+	cl := forwardClosure(h.Params[k])
+	for _, c2 := range AllCalls(h) {
+		if o := CalleeObj(c2); o != nil && o.Name() == "Write" {
+			for _, a := range c2.Common().Args {
+				if cl[a] {
+					return true
+				}
+			}
+		}
+	}
+	return false
+}
+
 func runHTTPStatusEntityPacked(c *Ctx) {
 	p := c.P
 	httpPkg := Root + "/proto/httproto"
@@ -793,11 +851,15 @@ func runHTTPStatusEntityPacked(c *Ctx) {
 			var writes []ssa.CallInstruction
 			for _, c2 := range AllCalls(fn) {
 				o2 := CalleeObj(c2)
-				if o2 == nil || o2.Name() != "Write" {
+				if o2 == nil {
 					continue
 				}
-				for _, a := range CallArgs(c2) {
-					if all[a] {
+				isWrite := o2.Name() == "Write"
+				for k, a := range c2.Common().Args {
+					if !all[a] {
+						continue
+					}
+					if isWrite || helperWritesParam(c2.Common().StaticCallee(), fn, k) {
 						writes = append(writes, c2)
 					}
 				}
@@ -814,7 +876,7 @@ func runHTTPStatusEntityPacked(c *Ctx) {
 			}
 			okW := true
 			for _, w := range writes {
-				for _, a := range CallArgs(w) {
+				for _, a := range w.Common().Args {
 					if all[a] && !packedOnly[a] {
 						okW = false // a write of the raw value that the packed one does not merge into
 					}
@@ -1085,12 +1147,34 @@ func runC13_14(c *Ctx) {
 	sessN, pfIdx := p.FieldIndex(Root, "session", "protoFuncs")
 	reset := p.MethodObj(Root+"/socket", "Socket", "Reset")
 	calls := CallsTo(fn, reset)
+	var viaHelper *ssa.Call
+	if len(calls) == 0 {
+		// the tail may have been extracted into a same-package helper (one level)
+		for _, hc := range AllCalls(fn) {
+			h := hc.Common().StaticCallee()
+			if h == nil || h.Pkg != fn.Pkg || len(h.Blocks) == 0 {
+				continue
+			}
+			if hcalls := CallsTo(h, reset); len(hcalls) == 1 {
+				calls = hcalls
+				viaHelper, _ = hc.(*ssa.Call)
+			}
+		}
+	}
 	if len(calls) != 1 {
-		c.Undec("ModifySocket installs the recorded protocol", p.Pos(fn.Pos()), fmt.Sprintf("expected one socket.Reset in ModifySocket, found %d", len(calls)))
+		c.Undec("ModifySocket installs the recorded protocol", p.Pos(fn.Pos()), fmt.Sprintf("expected one socket.Reset in ModifySocket (or in the helper it calls), found %d", len(calls)))
 		return
 	}
 	args := CallArgs(calls[0])
 	va := args[len(args)-1]
+	if prm, isPrm := va.(*ssa.Parameter); isPrm && viaHelper != nil {
+		// the helper is handed the list: look at what ModifySocket passes
+		for k, hp := range viaHelper.Call.StaticCallee().Params {
+			if hp == prm && k < len(viaHelper.Call.Args) {
+				va = viaHelper.Call.Args[k]
+			}
+		}
+	}
 	c.fact("value-identity")
 	c.Check(isFieldLoad(va, sessN, pfIdx), "ModifySocket installs the recorded protocol", p.InstrPos(calls[0]), "socket.Reset(conn, s.protoFuncs...)",
 		"ModifySocket hands socket.Reset a protocol list that is not the session's recorded one (s.protoFuncs): GetProtoFunc() then reports another protocol than the one in use - the websocket redial hook re-installs it, the bare sub-protocol reads the live connection to EOF and every call after the reconnection hangs")
@@ -1278,7 +1362,7 @@ func runC08_11(c *Ctx) {
 // C02.15 / C08.12  nobody Close() waits for queues on the lock Close() holds
 
 func init() {
-	t := "no wait cycle through the session lock: Close() holds session.lock while it waits for the outstanding-call and handler wait-groups, so every other acquisition of session.lock (redialForClient, reached from AsyncCall after the call was counted and from handlers) is preceded on every path by a status test that returns for ActiveClosing and ActiveClosed - the two states in which Close holds the lock and waits; otherwise a call issued on a redial-enabled client while Close() waits for another call blocks on the lock, Close waits for that call, and neither ever returns"
+	t := "no wait cycle through the session lock: Close() holds session.lock while it waits for the outstanding-call and handler wait-groups, so every other acquisition of session.lock (redialForClient, reached from AsyncCall after the call was counted and from handlers) is preceded on every path by a status test (getStatus() comparisons or the checkStatus membership helper) that returns for ActiveClosing and ActiveClosed - the two states in which Close holds the lock and waits; otherwise a call issued on a redial-enabled client while Close() waits for another call blocks on the lock, Close waits for that call, and neither ever returns"
 	register(&Rule{ID: "C02.15", Prop: "C02", Min: 1, Text: t, Run: runNoLockUnderClose})
 	register(&Rule{ID: "C08.12", Prop: "C08", Min: 1, Text: "Close returns: " + t, Run: runNoLockUnderClose})
 	register(&Rule{ID: "C13.15", Prop: "C13", Min: 1, Text: "later calls fail fast instead of hanging: " + t, Run: runNoLockUnderClose})
@@ -1289,6 +1373,7 @@ func runNoLockUnderClose(c *Ctx) {
 	st := p.statusTable()
 	sessN, lockIdx := p.FieldIndex(Root, "session", "lock")
 	getStatus := p.MethodObj(Root, "session", "getStatus")
+	checkStatus := p.MethodObj(Root, "session", "checkStatus")
 	closeFn := p.Fn(Root, "session", "Close")
 	n := 0
 	for _, fn := range p.ShippedFuncs() {
@@ -1323,6 +1408,34 @@ func runNoLockUnderClose(c *Ctx) {
 						continue
 					}
 					cut[[2]*ssa.BasicBlock{e.If.Block(), e.Ne}] = true
+				}
+				// ... or the false edge of the membership test checkStatus(..., k, ...)
+				for _, b := range fn.Blocks {
+					ifi, isIf := b.Instrs[len(b.Instrs)-1].(*ssa.If)
+					if !isIf {
+						continue
+					}
+					cv, neg := stripNot(ifi.Cond)
+					cl, isCall := cv.(*ssa.Call)
+					if !isCall || CalleeObj(cl) != checkStatus {
+						continue
+					}
+					args := CallArgs(cl)
+					vals, okV := VariadicInts(args[len(args)-1])
+					has := false
+					for _, v := range vals {
+						if v == k {
+							has = true
+						}
+					}
+					if !okV || !has {
+						continue
+					}
+					notMember := b.Succs[1]
+					if neg {
+						notMember = b.Succs[0]
+					}
+					cut[[2]*ssa.BasicBlock{b, notMember}] = true
 				}
 				target := call.(ssa.Instruction)
 				reach := p.ReachableFromBlock(fn.Blocks[0], func(i ssa.Instruction) bool { return i == target }, nil,
